@@ -89,6 +89,15 @@ Definition ceq (a b : cval) : bool :=
     else (fam (cv_ty a) =? fam (cv_ty b)) && leqb (cv_canon a) (cv_canon b)
   end.
 
+(** the hash key of one field value, as ICValueHasher::getHashVal sees it: the canonical representation w.r.t. the most
+    generic base validator of the value's type (= the family's canonical form), the value itself when there is no
+    validator, and nothing but the type for an empty value *)
+Definition chash (a : cval) : list N :=
+  match kind_of (cv_ty a) with
+  | TNone => cv_raw a
+  | _ => if is_nil_list (cv_raw a) then [0; type_code (cv_ty a)] else fam (cv_ty a) :: cv_canon a
+  end.
+
 (** *** from the specification-level schema to what the matchers see *)
 Fixpoint index_of_id (id : N) (sch : schema) (i : nat) : nat :=
   match sch with [] => i | d :: r => if ic_id (snd d) =? id then i else index_of_id id r (S i) end.
@@ -102,6 +111,6 @@ Definition mk_decl (sch : schema) (nm : N) : list nat := mk_decl_aux sch nm 0.
 
 (** the model of a validating parse: identity-constraint error codes in emission order *)
 Definition model_doc (fixed report : bool) (sch : schema) (t : tree cval) : list ecode :=
-  run_doc cval ceq fixed report (mk_mics sch) (mk_decl sch) t.
+  run_doc cval ceq fixed report (mk_mics sch) (mk_decl sch) chash t.
 (** the specification's verdict *)
 Definition spec_doc (sch : schema) (t : tree cval) : list viol := doc_viols cval spec_veq sch t.
